@@ -238,7 +238,10 @@ EXT_RAISES = {
     'logging.getLogger': (),
     'warnings.warn': (),
     'datetime.timezone': (),
-    'datetime.timedelta': (),
+    'datetime.timedelta': (
+        ('builtins.OverflowError', 'timedelta argument out of range'),),
+    'datetime.datetime': (
+        ('builtins.ValueError', 'datetime field out of range'),),
 }
 PURE_EXT = {'typing.cast', 'builtins.object', 'builtins.print',
             'builtins.repr', 'builtins.id', 'builtins.hash',
@@ -854,6 +857,12 @@ def call_method(interp, recv, name, args, kwargs, state, node):
             return E('re.Match') if m is not None else None
         return Sym('regex', name, recv.pattern, recv.flags,
                    tuple(_t(a) for a in args))
+    if isinstance(recv, ClassInfo) and name == '__subclasses__':
+        subs = [c for c in interp.prog.classes.values()
+                if any(b is recv for b in c.bases)]
+        subs.sort(key=lambda c: (c.module.name, c.node.lineno))
+        return interp.alloc(state, _i().ListObj(subs,
+                                                origin=interp.site(node)))
     if isinstance(recv, Ref):
         return call_container_method(interp, recv, name, args, kwargs,
                                      state, node)
@@ -1324,6 +1333,12 @@ def binop(interp, op, a, b, state, node):
                                  'unsupported operand type(s) for bit '
                                  'operation')
         return T.bitop(name, a, b)
+    if name in ('add', 'sub') and any(
+            isinstance(x, Sym) and x.op == 'extcall' and
+            x.args[0].startswith('datetime.') for x in (a, b)):
+        interp.raise_pending(state, E('builtins.OverflowError'), node,
+                             'date arithmetic result out of range')
+        return Sym(name, _t(a), _t(b))
     if name == 'add':
         if not _compatible_add(ta, tb):
             interp.raise_pending(state, E('builtins.TypeError'), node,
